@@ -19,8 +19,16 @@ var props = []Prop{
 		Runs: []Run{
 			{Harness: "reporting.ZZC19K1", Desc: "truncateString x calculateDisplayColumn: caret under the reported byte, excerpt length bound; line of ANY length (no static bound), display limit = the real constant",
 				Bounds: map[string]interface{}{"line_length": "0 .. 2^31-1 (symbolic, unbounded view)", "column": "1 .. len+1", "loops": "none in the encoded functions"}},
+			{Harness: "reporting.ZZC19K2", Desc: "readSourceLines: arbitrary cached file of 0..5 lines (opaque contents), arbitrary diagnostic line in [1,2^31): window = lines max(1,L-2)..min(n,L+1) with their numbers; shorter-than-expected files give an empty or partial window, never a failure",
+				Bounds: map[string]interface{}{"file_lines": "0..5", "diagnostic_line": "1..2^31-1"}},
+			{Harness: "reporting.ZZC19K2Unreadable", Desc: "ReadFile error degrades to no excerpt", Bounds: map[string]interface{}{"diagnostic_line": "any int"}},
+			{Harness: "reporting.ZZC19K3Small", Desc: "ReportViolation end to end: arbitrary file content (<=7 bytes, <=2 lines, tabs), any existing diagnostic line, any column 1..len+1, 3-byte message, 2 codes: the whole rendered message equals header + numbered window + caret row repeating the line's tabs + help link",
+				Bounds: map[string]interface{}{"content_bytes": 7, "lines": "<=2", "tabs": "<=2", "msg_bytes": 3}},
+			{Harness: "reporting.ZZC19K4", Tier: "thorough", Desc: "composition on a line longer than the display limit (256 bytes, 6 of them arbitrary), any column: the rendered excerpt and caret row equal truncateString / calculateDisplayColumn of the ORIGINAL line and column", Bounds: map[string]interface{}{"line_bytes": "250..256", "column": "1..len+1"},
+				Setup: func(ex *eng.Explorer, tier string) { ex.MaxDecisions = 2000 }},
+			{Harness: "reporting.ZZC19K3", Tier: "thorough", Desc: "the same with <=10 bytes, <=3 lines, 6 codes", Bounds: map[string]interface{}{"content_bytes": 10, "lines": "<=3", "tabs": "<=2", "msg_bytes": 3}},
 		},
-		Outside:     []string{"multi-byte characters are bytes (Go's Column is a byte count)", "bufio.Scanner 64KiB token limit"},
+		Outside:     []string{"multi-byte characters are bytes (Go's Column is a byte count)", "bufio.Scanner 64KiB token limit", "carriage returns in the end-to-end harness", "end-to-end rendering of lines longer than 10 bytes (the caret column for every length comes from K1)", "diagnostic line beyond the end of the file in the end-to-end harness (window behaviour for that case is K2)"},
 		Assumptions: []string{"line bytes are in 0..127"},
 	},
 }
